@@ -16,6 +16,10 @@ CLAIMS = {
   text="Writer/reader agreement of every serialisation behind the round trips: AST node JSON (typeOf three-way, key sets, same field, reader kind, Equal-field completeness, no nil factory call), pipeline node JSON (typeOf written=accepted, registry membership, factory yields the node type, accepted dynamic argument types, parent acceptance, overridden fields parsed back), and existence+arity of every name a pipeline→TICKscript builder emits. A mismatch on any one row makes some program fail its round trip.",
   ref="§3 C13", technique="table and registry agreement extracted from the type-checked AST (writer vs reader vs factory), path analysis of the factory",
   note="Trusted: encoding/json semantics for embedded alias structs; tick's reflection naming rule. Not decided: escaping, operator precedence/parentheses, comments, idempotence of formatting (properties of all programs)."),
+ "C20": dict(
+  text="The authorisation guarantee is decided as structure on every path: who may register a route and with which wrapper chain; in authenticate, inner handler only as admin when auth is off or with a user returned without error, never after an error response; authorize* dominance; the method→privilege table; the resource expression checked; AuthorizeAction's cleaned-key provenance, nearest-grant-decides and refusal of non-absolute resources; the write path's check on the very database written; the mux's redirect of non-canonical paths; injectivity of DatabaseResource (violated: known finding F17).",
+  ref="§3 C20", technique="who-may-call + provenance keys of the registered handler, path-sensitive guard/effect tables (dominance of the check over the use), switch-table agreement, syntactic def-use provenance of lookup keys, injectivity lint",
+  note="Trusted: path.Clean/Dir, strings.TrimPrefix, bcrypt/JWT libraries, httprouter-free own mux matching (pathMatch) beyond the redirect rule. Quick tier loads services/httpd+auth only; the who-may-call rule covers every module package in the thorough tier."),
 }
 
 _pending = "check not built yet in this round (see DESIGN.md §3 for the planned structural rules); will move to `checks` once armed and exact on the tree"
